@@ -3,7 +3,7 @@
 from __future__ import annotations
 
 from dataclasses import dataclass, field
-from typing import TYPE_CHECKING, Literal, overload
+from typing import TYPE_CHECKING, Any, Literal, overload
 
 import numpy as np
 import pandas as pd
@@ -97,27 +97,43 @@ class Simulation:
             include_surrogates=True,
         )
 
+    def _parameters_in_force(self) -> dict[str, Any]:
+        """Parameter values the model is set to right now.
+
+        The model is shared with whoever produced the result (a Simulator that may
+        be continued).  Views re-apply each segment's parameters to it and put back
+        what they found, so that reading a result never changes what runs next.
+        """
+        return {
+            k: p.value
+            for k, p in self.model.get_raw_parameters(as_copy=False).items()
+        }
+
     def _compute_args(self) -> list[pd.DataFrame]:
         # Already computed
         if len(self.raw_args) > 0:
             return self.raw_args
 
         # Compute new otherwise
-        for res, p in zip(self.raw_variables, self.raw_parameters, strict=True):
-            self.model.update_parameters(p)
-            self.raw_args.append(
-                self.model.get_args_time_course(
-                    variables=res,
-                    include_variables=True,
-                    include_parameters=True,
-                    include_derived_parameters=True,
-                    include_derived_variables=True,
-                    include_reactions=True,
-                    include_surrogate_variables=True,
-                    include_surrogate_fluxes=True,
-                    include_readouts=True,
+        in_force = self._parameters_in_force()
+        try:
+            for res, p in zip(self.raw_variables, self.raw_parameters, strict=True):
+                self.model.update_parameters(p)
+                self.raw_args.append(
+                    self.model.get_args_time_course(
+                        variables=res,
+                        include_variables=True,
+                        include_parameters=True,
+                        include_derived_parameters=True,
+                        include_derived_variables=True,
+                        include_reactions=True,
+                        include_surrogate_variables=True,
+                        include_surrogate_fluxes=True,
+                        include_readouts=True,
+                    )
                 )
-            )
+        finally:
+            self.model.update_parameters(in_force)
         return self.raw_args
 
     def _select_data(
@@ -424,13 +440,18 @@ class Simulation:
     ) -> pd.DataFrame | list[pd.DataFrame]:
         """Get right hand side over time."""
         args_by_simulation = self._compute_args()
-        return self._adjust_data(
-            [
+        in_force = self._parameters_in_force()
+        try:
+            rhs = [
                 self.model.update_parameters(p).get_right_hand_side_time_course(
                     args=args
                 )
                 for args, p in zip(args_by_simulation, self.raw_parameters, strict=True)
-            ],
+            ]
+        finally:
+            self.model.update_parameters(in_force)
+        return self._adjust_data(
+            rhs,
             normalise=normalise,
             concatenated=concatenated,
         )
@@ -502,7 +523,6 @@ class Simulation:
                 for flux, coef in zip(fluxes, coefficients, strict=True)
             ]
 
-        self.model.update_parameters(self.raw_parameters[-1])
         if concatenated:
             return pd.concat(fluxes, axis=0)
         return fluxes
